@@ -186,6 +186,9 @@ func transportConfigs(thorough bool) []tconfig {
 	}
 	out = append(out, tconfig{Name: "transport/send/large", SrvIWS: ledger.DefaultWindow, ConnRoom: -1, PerStream: 20000, PerConn: 65535,
 		BodyN: []int64{70000}, WUk: []int64{1, 20000}, SetV: []int64{0, 100000}, MaxStreams: 2, Depth: depth})
+	// request bodies against a SETTINGS_MAX_FRAME_SIZE the server raises and lowers while a body is being sent
+	out = append(out, tconfig{Name: "transport/send/maxframe", SrvIWS: 1 << 20, ConnRoom: -1, PerStream: 20000, PerConn: 65535, SrvMaxFrame: 40000,
+		BodyN: []int64{30000}, WUk: []int64{65535}, MaxFrameV: []int64{16384, 40000}, MaxStreams: 1, Depth: depth + 1})
 	// response DATA against the transport's advertised windows
 	for _, per := range []int{10, 20000, 70000} {
 		out = append(out, tconfig{Name: fmt.Sprintf("transport/recv/stream%d", per), SrvIWS: ledger.DefaultWindow, ConnRoom: -1, PerStream: per, PerConn: 65535,
